@@ -189,29 +189,38 @@ theorem ipa_lc_evaluation_shift (lc : LC.LinComb F) (σ : IPA.Label → F) (m : 
 
 /-- **IPA, degree-bound policy, one term**: a degree-bounded polynomial in a combination of `k ≠ 1`
 terms (constants count) is refused with `EquationHasDegreeBounds`; alone it must carry coefficient
-one (assertion); an unknown label is refused with `MissingPolynomial`. -/
+one (assertion); an unknown label is refused with `MissingPolynomial`.  The hypothesis "the
+commitment found under the label has a shifted part exactly when the polynomial has a bound" is
+needed since D26: the code tests it between the lookup and the policy and refuses a bounded
+polynomial whose commitment lacks the shifted part with `InvalidCommitment`
+(`ipa_lc_open_malformed_commitment_refused` in `C06_IPAMalformed`). -/
 theorem ipa_lc_bound_policy (trips : List (IPA.Trip F)) (k : Nat) (acc : IPA.LCAcc F) (coeff : F)
     (l : IPA.Label) :
     (∀ x, Marlin.lookupLast (fun (t : IPA.Trip F) => t.1.label) l trips = some x →
-      x.1.bound.isSome = true →
+      x.1.bound.isSome = x.2.2.comm.shifted.isSome → x.1.bound.isSome = true →
       (k ≠ 1 → IPA.lcStepP trips k acc (coeff, .poly l) = .error .equationHasDegreeBounds) ∧
       (k = 1 → coeff ≠ 1 → IPA.lcStepP trips k acc (coeff, .poly l) = .error .abort)) ∧
     (Marlin.lookupLast (fun (t : IPA.Trip F) => t.1.label) l trips = none →
       IPA.lcStepP trips k acc (coeff, .poly l) = .error .missingPolynomial) :=
-  ⟨fun x hl hb => IPA.lcStepP_policy trips k acc coeff l x hl hb,
+  ⟨fun x hl hal hb => IPA.lcStepP_policy trips k acc coeff l x hl hal hb,
    fun hl => IPA.lcStepP_unknown trips k acc coeff l hl⟩
 
 /-- **IPA, mixtures are refused by the prover** with the code's error: all labels known, single
 bounded terms with coefficient one (the in-domain side conditions), and some combination mixes a
 degree-bounded polynomial with other terms ⇒ `open_combinations = Err(EquationHasDegreeBounds)`,
-whatever the query set and the oracles are. -/
+whatever the query set and the oracles are.  `hwf` — every (polynomial, state, commitment) entry has
+a shifted commitment exactly when the polynomial has a degree bound, as for the committer's own
+output — is needed since D26: without it a malformed entry named before the mixture (or by the
+bounded term itself) ends the call in `InvalidCommitment` instead
+(`ipa_lc_open_malformed_commitment_refused`).  The verifier's statement below gets it from `hall`. -/
 theorem ipa_lc_mixed_refused_prover (ck : IPA.CK F) (lcs : List (LC.LinComb F))
     (polys : List (IPA.LPoly F)) (comms : List (IPA.LComm F)) (sts : List (IPA.Rand F))
     (qs : List (IPA.Query F)) (ξs ros : List F) (rng : Bool) (draws : List F)
+    (hwf : ∀ t ∈ polys.zip (sts.zip comms), t.1.bound.isSome = t.2.2.comm.shifted.isSome)
     (hdom : ∀ lc ∈ lcs, IPA.LCDomain (polys.zip (sts.zip comms)) lc)
     (hex : ∃ lc ∈ lcs, IPA.Mixes (polys.zip (sts.zip comms)) lc) :
     IPA.openCombinations ck lcs polys comms sts qs ξs ros rng draws = .error .equationHasDegreeBounds :=
-  IPA.openCombinations_mixed ck lcs polys comms sts qs ξs ros rng draws hdom hex
+  IPA.openCombinations_mixed ck lcs polys comms sts qs ξs ros rng draws hwf hdom hex
 
 /-- **IPA, mixtures are refused by the verifier** with the same error (it reads the bounds off the
 labelled commitments): never opened or checked without the bound. -/
@@ -301,6 +310,8 @@ example : IPA.Mixes (polys.zip (sts.zip comms)) ⟨[65], [(1, .poly [1]), (5, .o
   ⟨by decide, (1, .poly [1]), by simp, [1],
     ((⟨[1], [1, 2, 3], some 2, some 1⟩ : IPA.LPoly K), (⟨21, some 22⟩ : IPA.Rand K),
       (⟨[1], ⟨88, some 22⟩, some 2⟩ : IPA.LComm K)), rfl, by decide, by decide⟩
+open ExIPA in
+example : ∀ t ∈ polys.zip (sts.zip comms), t.1.bound.isSome = t.2.2.comm.shifted.isSome := by decide
 open ExIPA in
 example : IPA.openCombinations ck [⟨[65], [(2, .poly [1])]⟩] polys comms sts qs ξs ros true draws
     = .error .abort := by decide
